@@ -467,8 +467,12 @@ def do_check(prop, args, scratch, seed, t0):
                 witness[u["unit"]] = run_witness(u, scratch, failed, args.tier)
 
     lines, violations, known_hits = [], [], []
+    seen_obs = set()
     for unit, f in failures:
         ob = f["obligation"]
+        if (unit, ob) in seen_obs:
+            continue
+        seen_obs.add((unit, ob))
         if ob in known_open:
             k = known_open[ob]
             lines.append(f"KNOWN-FINDING: property={prop} obligation={ob} {k.get('what', '')}")
